@@ -1,5 +1,14 @@
-"""C02 union / intersect / set_diff are the Boolean set operations on the time line."""
+"""C02 union / intersect / set_diff are the Boolean set operations on the time line.
+
+Layout: (1) kernels + public wrappers on all order types (ndarray / float64 / seconds: the form the model is stated in);
+(2) ARGUMENT FORMS: the same pairs with each operand handed over in a seeded form (make_form / build_iset), the operations
+called positionally / by keyword / through the class, chains of two operations; (3) absorbing laws incl. the empty set in
+each of its forms; (4) n-ary union through TsGroup supports.  One oracle (oracle_pub) = the statement, for every form."""
+import json
+import os
 import random
+import shutil
+import tempfile
 import warnings
 
 import numpy as np
@@ -12,7 +21,11 @@ TRUSTED = ["models: coq/Model/Iset.v (inter_go, diff_go, union_go, union_n_go); 
            "the public-result (wrapper) forms of the endpoint, commutativity, idempotence and duration clauses are proved in Properties/C02.v itself"]
 ASSUMPTIONS = ["operands are canonical IntervalSets (C01)", "comparison/min/max-only kernels: behaviour is a function of the order type of the endpoints",
                "float_ambiguous counts ONLY the public-result interval [p - 1us, p - 1e-6] left by the constructor's un-rounded trim of an exactly 1us long interval "
-               "whose end p touches a start of the other operand (zero-length on the ns grid, ~1e-22 s as floats); it is dropped before the comparison"]
+               "whose end p touches a start of the other operand (zero-length on the ns grid, ~1e-22 s as floats); it is dropped before the comparison",
+               "widened argument forms: every operand is first checked to denote exactly the generated tick list (whatever its unit, dtype, container, metadata, history), "
+               "then the unchanged statement oracle is applied; an infinite endpoint (unbounded interval) is idealised as the tick +-10**18 (the kernels only compare, "
+               "the model is over Z) and the duration clause, which says nothing about infinite durations, is not evaluated for unbounded operands; "
+               "metadata carried by operands / results is outside the statement (only the time content of the results is judged)"]
 
 
 def _nap():
@@ -29,6 +42,14 @@ def junctions(A, B):
     return (set(e for _, e in A) & set(s for s, _ in B)) | (set(e for _, e in B) & set(s for s, _ in A))
 
 
+BIG = 10 ** 18          # the tick standing for an infinite endpoint (unbounded intervals [-inf, e], [s, +inf]); finite times are < 1e15 ticks
+
+
+def _ns(x):
+    x = float(x)
+    return BIG if x == float("inf") else -BIG if x == float("-inf") else C.to_ns(x)
+
+
 def tk(st, en, trims=()):
     """ticks of an interval list.  The constructor trims an end p that touches the next start to the float p - 1e-6, which is
     not rounded to ns; when the trimmed interval was exactly 1 us long, [p - 1us, p - 1e-6] stays proper as floats (a few
@@ -37,7 +58,7 @@ def tk(st, en, trims=()):
     any other interval that is zero-length on ticks is kept and fails the checks."""
     out = []
     for s, e in zip(st, en):
-        a, b = C.to_ns(s), C.to_ns(e)
+        a, b = _ns(s), _ns(e)
         if a == b and s < e and a + 1000 in trims:
             AMB[0] += 1
             continue
@@ -83,6 +104,444 @@ def oracle_pub(name, A, B, R, res, inp):
                                    "input": inp, "impl": R})
             return False
     return True
+
+
+# ----------------------------------------------------------------------------------------------------------------------
+# ARGUMENT FORMS.  A `form` is a small JSON-able dict that fully determines how the operand with tick list A is handed to the
+# library (no randomness inside build_iset: every random choice is made by make_form from the seeded rng, so that a replay
+# file rebuilds exactly the same objects).  Whatever the form, the operand denotes the SAME instants, hence the statement's
+# oracle (oracle_pub) applies unchanged.
+UNIT_NS = {"s": 10 ** 9, "ms": 10 ** 6, "us": 10 ** 3}
+INT_DTYPES = ["int64", "int32", "int16", "int8", "uint8", "uint16", "uint32", "uint64"]
+SMALL_DTYPES = INT_DTYPES + ["float32", "float16", "bool"]
+CONT_ANY = ["ndarray", "list", "tuple", "list_np", "series", "series_idx", "pd_index", "col2d", "strided", "readonly",
+            "dataframe", "dataframe_rev", "iset"]
+CONT_N1 = ["pairs_array", "pairs_list", "pairs_tuple"]                     # need >= 1 interval (an empty pair list is rejected)
+CONT_ONE = ["one_pair", "scalar_py", "scalar_np", "zero_d"]                # exactly one interval
+CONT_TS = ["tsindex", "ts_t", "ts_index_values", "ts_times"]               # another object's time index (float64 only)
+HIST = ["copy_ctor", "bigger_slice", "bigger_intarr", "bigger_list", "bigger_mask", "bigger_loc", "bigger_slice_colon", "bigger_number",
+        "npz", "pickle", "deepcopy", "copy", "via_dataframe", "via_units_s", "via_units_ms", "via_units_us", "via_values",
+        "op_union_empty", "op_intersect_self", "op_set_diff_empty", "tsd_support", "restrict_support"]
+# an infinite endpoint is not a time stamp of a series, not a whole number of microseconds, and leaves no room for a bigger set
+HIST_UNBOUNDED = ["copy_ctor", "npz", "pickle", "deepcopy", "copy", "via_dataframe", "via_units_s", "via_units_ms", "via_values",
+                  "op_union_empty", "op_intersect_self", "op_set_diff_empty"]
+OPS = ("union", "intersect", "set_diff")
+NOMETA = ("none", "none_explicit")        # metadata left out / metadata=None spelled out (the documented default)
+
+
+def _dtype_ok(ticks, unit, dt):
+    q = UNIT_NS[unit]
+    if dt == "float64":
+        return True
+    if any(abs(t) >= BIG for t in ticks):
+        return False
+    if any(t % q for t in ticks):
+        return False
+    v = [t // q for t in ticks]
+    if dt == "bool":
+        return all(x in (0, 1) for x in v)
+    if dt == "float32":
+        return all(abs(x) <= 2 ** 24 for x in v)
+    if dt == "float16":
+        return all(abs(x) <= 2048 for x in v)
+    ii = np.iinfo(dt)
+    return all(ii.min <= x <= ii.max for x in v)
+
+
+def _extra(A, unit):
+    """the two far intervals added around A by the `bigger_*` histories (in whole units, so that integer dtypes stay possible)"""
+    q = UNIT_NS[unit]
+    lo = A[0][0] if A else 0
+    hi = A[-1][1] if A else 0
+    return (lo - 8 * q, lo - 4 * q), (hi + 4 * q, hi + 8 * q)
+
+
+def make_form(rng, A, side, shared_names=True, plain=0.15):
+    """draw one argument form for the operand A (`side` = 'A' / 'B' / 'C' names its private metadata columns)"""
+    n = len(A)
+    if rng.random() < plain:
+        return {"side": side, "container": "ndarray", "unit": "s", "unit_style": "default", "arg_style": "pos", "dtype": "float64", "meta": "none",
+                "meta_cols": [], "history": "direct", "before": False}
+    unbounded = any(abs(x) >= BIG for iv in A for x in iv)
+    hist = rng.choice(HIST_UNBOUNDED if unbounded else HIST) if rng.random() < 0.45 else "direct"
+    if hist == "bigger_number" and n != 1:
+        hist = "bigger_slice"
+    if hist in ("bigger_list", "bigger_loc") and n == 0:      # ep[[]] is the (empty) list-of-column-names form: not an interval selection
+        hist = "bigger_intarr"
+    if hist == "via_values" and n == 0:
+        hist = "via_dataframe"
+    unit = rng.choice(["s", "ms", "us"])
+    whole = [u for u in ("s", "ms", "us") if not any(x % UNIT_NS[u] for iv in A for x in iv if abs(x) < BIG)]
+    if whole and rng.random() < 0.5:          # prefer a unit in which the instants are whole numbers: integer / float32 dtypes become possible
+        unit = rng.choice(whole)
+    if hist == "via_units_us" and any(x % 1000 for iv in A for x in iv):   # as_units('us') returns whole microseconds
+        hist = "via_units_ms"
+    before = hist.startswith("bigger") and rng.random() < 0.5
+    ext = list(A)
+    if hist.startswith("bigger"):
+        b4, aft = _extra(A, unit)
+        ext = ([b4] if before else []) + ext + [aft]
+    ticks = [x for iv in ext for x in iv]
+    dts = [d for d in SMALL_DTYPES if _dtype_ok(ticks, unit, d)]
+    dtype = rng.choice(dts) if dts and rng.random() < 0.7 else "float64"
+    conts = list(CONT_ANY)
+    if len(ext) >= 1:
+        conts += CONT_N1
+    if len(ext) == 1:
+        conts += CONT_ONE * 2
+    if dtype == "float64" and not unbounded:
+        conts += CONT_TS
+    if dtype == "float16":
+        conts = [c for c in conts if c not in ("pd_index",)]                 # pandas has no float16 Index
+    if dtype == "bool":
+        conts = [c for c in conts if c not in ("scalar_np",)]                # np.bool_ is not a number: not an accepted scalar
+    cont = rng.choice(conts)
+    two = cont not in CONT_N1 + ["one_pair", "dataframe", "dataframe_rev", "iset"]
+    unit_style = rng.choice(["default", "pos", "kw"] if unit == "s" else ["pos", "kw"])
+    arg_style = rng.choice(["pos", "kw"])
+    meta = rng.choice(["none", "none_explicit"] if rng.random() < 0.5 else ["dict", "df", "set_info_kw", "set_info_df", "setitem"])
+    if cont in ("dataframe", "dataframe_rev") and meta not in NOMETA:
+        meta = "in_frame"
+    cols = []
+    if meta not in NOMETA:
+        kinds = ["int", "str", "float"]
+        cols.append(["lab" if shared_names else "lab" + side, rng.choice(kinds)])
+        if rng.random() < 0.6:
+            cols.append(["w" + side, rng.choice(kinds)])
+    return {"side": side, "container": cont, "unit": unit, "unit_style": unit_style, "arg_style": arg_style if two else rng.choice(["pos", "kw"]),
+            "dtype": dtype, "meta": meta, "meta_cols": cols, "history": hist, "before": before}
+
+
+def _meta_vals(kind, n, salt):
+    if kind == "int":
+        return [salt + 10 + i for i in range(n)]
+    if kind == "str":
+        return ["x%d_%d" % (salt, i) for i in range(n)]
+    return [salt + 0.5 * i for i in range(n)]
+
+
+def build_iset(nap, A, form, tmpdir=None):
+    """the IntervalSet denoting the tick list A, handed to the library in the given form"""
+    import copy as _copy
+    import pickle as _pickle
+    import pandas as pd
+    unit, dt, cont, hist = form["unit"], form["dtype"], form["container"], form["history"]
+    q = UNIT_NS[unit]
+    ext = list(A)
+    i0 = 0
+    if hist.startswith("bigger"):
+        b4, aft = _extra(A, unit)
+        ext = ([b4] if form["before"] else []) + ext + [aft]
+        i0 = 1 if form["before"] else 0
+    n = len(ext)
+    st, en = [s for s, _ in ext], [e for _, e in ext]
+
+    def vals(t):
+        if dt == "float64":
+            v = G.arr(t) if unit == "s" else (np.asarray(t, dtype=np.float64) / (q / 1.0) if len(t) else np.array([], dtype=np.float64))
+            for i, x in enumerate(t):
+                if abs(x) >= BIG:
+                    v[i] = np.inf if x > 0 else -np.inf
+            return v
+        return np.asarray([x // q for x in t], dtype=dt)
+    sv, ev = vals(st), vals(en)
+    salt = {"A": 0, "B": 100, "C": 200}.get(form.get("side", "A"), 0)
+    mcols = {name: _meta_vals(kind, n, salt + 1000 * k) for k, (name, kind) in enumerate(form["meta_cols"])}
+    kw = {}
+    if form["meta"] == "dict":
+        kw["metadata"] = dict(mcols)
+    elif form["meta"] == "df":
+        kw["metadata"] = pd.DataFrame(mcols)
+    elif form["meta"] == "none_explicit":
+        kw["metadata"] = None
+    # ---- the arguments
+    end_given = True
+    if cont == "ndarray":
+        s, e = sv, ev
+    elif cont == "list":
+        s, e = sv.tolist(), ev.tolist()
+    elif cont == "tuple":
+        s, e = tuple(sv.tolist()), tuple(ev.tolist())
+    elif cont == "list_np":
+        s, e = list(sv), list(ev)
+    elif cont == "series":
+        s, e = pd.Series(sv), pd.Series(ev)
+    elif cont == "series_idx":
+        s, e = pd.Series(sv, index=np.arange(n)[::-1] + 5), pd.Series(ev, index=["k%d" % i for i in range(n)])
+    elif cont == "pd_index":
+        s, e = pd.Index(sv), pd.Index(ev)
+    elif cont == "col2d":
+        s, e = sv[:, None], ev[None, :]
+    elif cont == "strided":
+        buf = np.zeros((n, 3), dtype=sv.dtype)
+        buf[:, 0], buf[:, 2] = sv, ev
+        s, e = buf[:, 0], buf[:, 2]
+    elif cont == "readonly":
+        s, e = sv.copy(), ev.copy()
+        s.flags.writeable = False
+        e.flags.writeable = False
+    elif cont in ("dataframe", "dataframe_rev"):
+        d = {"start": sv, "end": ev}
+        d.update(mcols)
+        df = pd.DataFrame(d)
+        if cont == "dataframe_rev":
+            df = df[list(df.columns[::-1])]
+        s, e, end_given = df, None, False
+    elif cont == "iset":
+        s, e, end_given = nap.IntervalSet(sv, ev, time_units=unit), None, False
+    elif cont == "pairs_array":
+        s, e, end_given = np.c_[sv, ev], None, False
+    elif cont == "pairs_list":
+        s, e, end_given = [list(p) for p in zip(sv.tolist(), ev.tolist())], None, False
+    elif cont == "pairs_tuple":
+        s, e, end_given = tuple(zip(sv.tolist(), ev.tolist())), None, False
+    elif cont == "one_pair":
+        s, e, end_given = (sv.tolist()[0], ev.tolist()[0]), None, False
+    elif cont == "scalar_py":
+        s, e = sv.tolist()[0], ev.tolist()[0]
+    elif cont == "scalar_np":
+        s, e = sv[0], ev[0]
+    elif cont == "zero_d":
+        s, e = np.array(sv[0]), np.array(ev[0])
+    elif cont in CONT_TS:
+        ts_s, ts_e = nap.Ts(G.arr(st)), nap.Ts(G.arr(en))
+        if cont == "tsindex":
+            s, e = ts_s.index, ts_e.index
+        elif cont == "ts_t":
+            s, e = ts_s.t, ts_e.t
+        elif cont == "ts_index_values":
+            s, e = ts_s.index.values, ts_e.index.values
+        else:
+            s, e = ts_s.times(unit), ts_e.times(unit)
+    else:
+        raise ValueError(cont)
+    u = "s" if (cont == "iset" or (cont in CONT_TS and cont != "ts_times")) else unit     # those hold seconds already
+    style = form["unit_style"]
+    if u != "s" and style == "default":
+        style = "kw"
+    if u == "s" and unit != "s" and style == "pos":
+        style = "default"
+    args, kwargs = [], dict(kw)
+    if form["arg_style"] == "kw":
+        kwargs["start"] = s
+        if end_given or style == "pos":
+            kwargs["end"] = e
+        if style != "default":
+            kwargs["time_units"] = u
+    else:
+        args.append(s)
+        if end_given or style == "pos":
+            args.append(e)                     # end=None spelled out: the documented default
+        if style == "pos":
+            args.append(u)
+        elif style == "kw":
+            kwargs["time_units"] = u
+    ep = nap.IntervalSet(*args, **kwargs)
+    if form["meta"] == "set_info_kw":
+        ep.set_info(**{k: np.array(v) for k, v in mcols.items()})
+    elif form["meta"] == "set_info_df":
+        ep.set_info(pd.DataFrame(mcols))
+    elif form["meta"] == "setitem":
+        for k, v in mcols.items():
+            ep[k] = v
+    # ---- the history
+    m = len(A)
+    if hist in ("direct",):
+        pass
+    elif hist == "copy_ctor":
+        ep = nap.IntervalSet(ep)
+    elif hist == "bigger_slice":
+        ep = ep[i0:i0 + m]
+    elif hist == "bigger_slice_colon":
+        ep = ep[i0:i0 + m, :]
+    elif hist == "bigger_intarr":
+        ep = ep[np.arange(i0, i0 + m)]
+    elif hist == "bigger_list":
+        ep = ep[list(range(i0, i0 + m))]
+    elif hist == "bigger_mask":
+        mask = np.zeros(n, dtype=bool)
+        mask[i0:i0 + m] = True
+        ep = ep[mask]
+    elif hist == "bigger_loc":
+        ep = ep.loc[list(range(i0, i0 + m))]
+    elif hist == "bigger_number":
+        ep = ep[i0]
+    elif hist == "npz":
+        path = os.path.join(tmpdir or tempfile.gettempdir(), "wd_c02_%d.npz" % os.getpid())
+        ep.save(path)
+        ep = nap.load_file(path)
+        os.remove(path)
+    elif hist == "pickle":
+        ep = _pickle.loads(_pickle.dumps(ep))
+    elif hist == "deepcopy":
+        ep = _copy.deepcopy(ep)
+    elif hist == "copy":
+        ep = _copy.copy(ep)
+    elif hist == "via_dataframe":
+        ep = nap.IntervalSet(ep.as_dataframe())
+    elif hist.startswith("via_units_"):
+        uu = hist[len("via_units_"):]
+        ep = nap.IntervalSet(ep.as_units(uu), time_units=uu)
+    elif hist == "via_values":
+        ep = nap.IntervalSet(ep.values)
+    elif hist == "op_union_empty":
+        ep = ep.union(nap.IntervalSet([], []))
+    elif hist == "op_intersect_self":
+        ep = ep.intersect(ep)
+    elif hist == "op_set_diff_empty":
+        ep = ep.set_diff(nap.IntervalSet(start=np.array([]), end=np.array([])))
+    elif hist == "tsd_support":
+        t = G.arr([s_ for s_, _ in A])
+        ep = nap.Tsd(t=t, d=np.arange(len(t)), time_support=ep).time_support
+    elif hist == "restrict_support":
+        t = G.arr(sorted(set([x for iv in A for x in iv] + [(A[0][0] if A else 0) - 7])))
+        ep = nap.Ts(t=t).restrict(ep).time_support
+    else:
+        raise ValueError(hist)
+    return ep
+
+
+class OpFailure(Exception):
+    def __init__(self, name, ex):
+        Exception.__init__(self, "%s raises %s: %s" % (name, type(ex).__name__, str(ex)[:200]))
+        self.name, self.exc = name, type(ex).__name__
+
+
+def call_op(nap, name, a, b, style):
+    """a.<name>(b) positionally / by keyword (`a` is the documented parameter name) / through the class"""
+    try:
+        if style == "kw":
+            r = getattr(a, name)(a=b)
+        elif style == "unbound":
+            r = getattr(nap.IntervalSet, name)(a, b)
+        else:
+            r = getattr(a, name)(b)
+    except Exception as ex:
+        raise OpFailure(name, ex)
+    if not isinstance(r, nap.IntervalSet):
+        raise OpFailure(name, TypeError("result is a %s, not an IntervalSet" % type(r).__name__))
+    return r
+
+
+def transform(X, scale, off):
+    return [(s * scale + off, e * scale + off) for s, e in X]
+
+
+def unbound(rng, X):
+    X = list(X)
+    if X and rng.random() < 0.6:
+        X[0] = (-BIG, X[0][1])
+    if X and rng.random() < 0.6:
+        X[-1] = (X[-1][0], BIG)
+    return X
+
+
+def is_unbounded(*sets):
+    return any(abs(x) >= BIG for X in sets for iv in X for x in iv)
+
+
+def place(rng, sets):
+    """time placement of a case: scale of the lattice (us / ms / s) and offset (0, +-1e5 s, 3 s, straddling 0)"""
+    scale = rng.choice([1, 1, 1000, 10 ** 6])
+    eps = [x * scale for X in sets for iv in X for x in iv]
+    g = 1000 * scale
+    straddle = -(((min(eps) + max(eps)) // 2) // g) * g if eps else 0
+    off = rng.choice([0, 0, 10 ** 14, -10 ** 14, 3 * 10 ** 9, straddle])
+    name = "0" if off == 0 else "+1e5s" if off == 10 ** 14 else "-1e5s" if off == -10 ** 14 else "+3s" if off == 3 * 10 ** 9 else "straddle_0"
+    return scale, off, name
+
+
+def count_form(res, f):
+    for k in ("container", "unit", "dtype", "meta", "history"):
+        res.count("form:%s=%s" % (k, f[k]))
+    res.count("form:time_units_passed=%s" % f["unit_style"])
+    res.count("form:start_end_passed=%s" % f["arg_style"])
+
+
+def public_checks(res, nap, A, B, a, b, o3, inp, call="pos", order=(0, 1, 2), durations=True):
+    """the statement on the public results of one pair of live operands a, b (denoting the tick lists A, B): membership at far
+    instants, endpoints, commutativity, durations; + agreement with the model's public results o3 = (intersect, set_diff, union).
+    `order` = the order in which the three operations are called on the SAME live objects."""
+    junc = junctions(A, B)
+    got = {}
+    for k in order:
+        got[OPS[k]] = call_op(nap, OPS[k], a, b, call)
+    pu, pi, pd_ = got["union"], got["intersect"], got["set_diff"]
+    Ru, Ri, Rd = tk(pu.start, pu.end, junc), tk(pi.start, pi.end, junc), tk(pd_.start, pd_.end, junc)
+    res.evaluations += 3
+    for name, R, k in (("union", Ru, 2), ("intersect", Ri, 0), ("set_diff", Rd, 1)):
+        oracle_pub(name, A, B, R, res, inp)
+        if o3 is not None and R != parse_iset(o3[k]):
+            res.disagreements.append({"op": name, "input": inp, "impl": R, "model": o3[k]})
+    # commutativity, idempotence, durations (up to 1us per junction)
+    for name, R, R2 in (("union", Ru, call_op(nap, "union", b, a, call)), ("intersect", Ri, call_op(nap, "intersect", b, a, call))):
+        if tk(R2.start, R2.end, junc) != R:
+            res.violations.append({"key": {"op": "commutativity", "part": name, "operands_touch": bool(junc)},
+                                   "what": "%s is not commutative" % name, "input": inp, "impl": [R, tk(R2.start, R2.end, junc)]})
+    # a junction is an instant where one operand ends and the other starts: the only place where 1us can go missing
+    L = lambda R: sum(e - s for s, e in R)
+    tol = 1000 * len(junc)
+    res.count("touch_instants=%d" % min(len(junc), 3))
+    if not durations:            # an unbounded operand: the durations are infinite, the statement's duration clause says nothing
+        return Ru, Ri, Rd, got
+    if abs(L(Ru) + L(Ri) - L(A) - L(B)) > tol:
+        res.violations.append({"key": {"op": "durations", "part": "union_identity", "operands_touch": bool(junc)},
+                               "what": "|A union B| + |A intersect B| differs from |A| + |B| by more than 1us per touch instant", "input": inp,
+                               "impl": {"union": Ru, "inter": Ri}, "off_by_ns": L(Ru) + L(Ri) - L(A) - L(B), "touch_instants": len(junc)})
+    if abs(L(Rd) - (L(A) - L(Ri))) > tol:
+        res.violations.append({"key": {"op": "durations", "part": "diff_identity", "operands_touch": bool(junc)},
+                               "what": "|A set_diff B| differs from |A| - |A intersect B| by more than 1us per touch instant", "input": inp,
+                               "impl": {"inter": Ri, "diff": Rd}, "off_by_ns": L(Rd) - (L(A) - L(Ri)), "touch_instants": len(junc)})
+    return Ru, Ri, Rd, got
+
+
+def build_checked(res, nap, X, form, inp, tmpdir):
+    """build the operand in its form; the operand must denote exactly the instants X (same instants in every unit / dtype / container)"""
+    try:
+        x = build_iset(nap, X, form, tmpdir)
+    except Exception as ex:       # every generated form is one the documented signature accepts
+        res.violations.append({"key": {"op": "operand", "part": "exception", "exc": type(ex).__name__, "container": form["container"],
+                                       "history": form["history"], "meta": form["meta"] not in NOMETA},
+                               "what": "building an operand in an accepted argument form raises: %s" % str(ex)[:200], "input": inp, "form": form})
+        return None
+    got = tk(x.start, x.end)
+    if not isinstance(x, nap.IntervalSet) or got != [tuple(iv) for iv in X]:
+        res.violations.append({"key": {"op": "operand", "part": "instants", "container": form["container"], "unit": form["unit"],
+                                       "float64": form["dtype"] == "float64", "history": form["history"]},
+                               "what": "an operand given in another argument form (unit / dtype / container / history) does not denote the same instants",
+                               "input": inp, "form": form, "impl": got, "expected": X})
+        return None
+    return x
+
+
+def _empty_forms():
+    import pandas as pd
+    return {
+        "lists": lambda nap: nap.IntervalSet([], []),
+        "ndarrays_kw": lambda nap: nap.IntervalSet(start=np.array([]), end=np.array([])),
+        "tuples_ms": lambda nap: nap.IntervalSet((), (), "ms"),
+        "series_us": lambda nap: nap.IntervalSet(pd.Series([], dtype=np.float64), pd.Series([], dtype=np.float64), time_units="us"),
+        "uint8": lambda nap: nap.IntervalSet(np.array([], dtype=np.uint8), np.array([], dtype=np.uint8)),
+        "dataframe": lambda nap: nap.IntervalSet(pd.DataFrame({"start": [], "end": []})),
+        "with_metadata": lambda nap: nap.IntervalSet([], [], metadata={"lab": []}),
+        "result_of_set_diff": lambda nap: nap.IntervalSet(0, 1).set_diff(nap.IntervalSet(0, 1)),
+        "empty_selection": lambda nap: nap.IntervalSet([0, 2], [1, 3])[0:0],
+    }
+
+
+EMPTY_FORMS = _empty_forms()
+
+
+def absorbing(res, nap, A, a, e0, call, inp):
+    """A op A, A op empty, empty op A"""
+    op = lambda name, x, y: call_op(nap, name, x, y, call)
+    for part, R, want in (("A union A", op("union", a, a), A), ("A intersect A", op("intersect", a, a), A), ("A set_diff A", op("set_diff", a, a), []),
+                          ("A union empty", op("union", a, e0), A), ("empty union A", op("union", e0, a), A), ("A intersect empty", op("intersect", a, e0), []),
+                          ("empty intersect A", op("intersect", e0, a), []), ("A set_diff empty", op("set_diff", a, e0), A),
+                          ("empty set_diff A", op("set_diff", e0, a), [])):
+        if tk(R.start, R.end) != [tuple(iv) for iv in (A if want else [])]:
+            res.violations.append({"key": {"op": "idempotence", "part": part}, "what": "%s is not %s" % (part, "A" if want else "empty"),
+                                   "input": inp, "impl": tk(R.start, R.end)})
 
 
 def run(res, tier, seed):
@@ -179,33 +638,136 @@ def run(res, tier, seed):
         # public wrappers
         a = nap.IntervalSet(s1, e1)
         b = nap.IntervalSet(s2, e2)
-        pu, pi, pd_ = a.union(b), a.intersect(b), a.set_diff(b)
-        junc = junctions(A, B)
-        Ru, Ri, Rd = tk(pu.start, pu.end, junc), tk(pi.start, pi.end, junc), tk(pd_.start, pd_.end, junc)
-        res.evaluations += 3
-        for name, R, k in (("union", Ru, 5), ("intersect", Ri, 3), ("set_diff", Rd, 4)):
-            oracle_pub(name, A, B, R, res, inp)
-            if R != parse_iset(o[k]):
-                res.disagreements.append({"op": name, "input": inp, "impl": R, "model": o[k]})
-        # commutativity, idempotence, durations (up to 1us per junction)
-        for name, R, R2 in (("union", Ru, b.union(a)), ("intersect", Ri, b.intersect(a))):
-            if tk(R2.start, R2.end, junc) != R:
-                res.violations.append({"key": {"op": "commutativity", "part": name, "operands_touch": bool(junc)},
-                                       "what": "%s is not commutative" % name, "input": inp, "impl": [R, tk(R2.start, R2.end, junc)]})
-        # a junction is an instant where one operand ends and the other starts: the only place where 1us can go missing
-        L = lambda R: sum(e - s for s, e in R)
-        tol = 1000 * len(junc)
-        res.count("touch_instants=%d" % min(len(junc), 3))
-        if abs(L(Ru) + L(Ri) - L(A) - L(B)) > tol:
-            res.violations.append({"key": {"op": "durations", "part": "union_identity", "operands_touch": bool(junc)},
-                                   "what": "|A union B| + |A intersect B| differs from |A| + |B| by more than 1us per touch instant", "input": inp,
-                                   "impl": {"union": Ru, "inter": Ri}, "off_by_ns": L(Ru) + L(Ri) - L(A) - L(B), "touch_instants": len(junc)})
-        if abs(L(Rd) - (L(A) - L(Ri))) > tol:
-            res.violations.append({"key": {"op": "durations", "part": "diff_identity", "operands_touch": bool(junc)},
-                                   "what": "|A set_diff B| differs from |A| - |A intersect B| by more than 1us per touch instant", "input": inp,
-                                   "impl": {"inter": Ri, "diff": Rd}, "off_by_ns": L(Rd) - (L(A) - L(Ri)), "touch_instants": len(junc)})
+        Ru, Ri, Rd, _ = public_checks(res, nap, A, B, a, b, (o[3], o[4], o[5]), inp)
         if n < 2 or n % 3001 == 0:
             res.sample({"A": A, "B": B, "union": Ru, "intersect": Ri, "set_diff": Rd})
+    res.float_ambiguous = AMB[0]
+    # ------------------------------------------------------------------------------------------------------------------
+    # ARGUMENT FORMS: the same pairs (sampled), each operand handed to the library in a seeded form (container x unit x dtype x
+    # positional/keyword x metadata x history), on a us / ms / s lattice, at offsets 0, +-1e5 s, +3 s, straddling 0; the three
+    # operations called positionally / by keyword / through the class, in a seeded order on the same live objects.
+    quick = tier == "quick"
+    rngf = random.Random(seed * 37 + 11)
+    tmpdir = tempfile.mkdtemp(prefix="wd_c02_")
+    res.rule += (" || WIDENED (argument forms; every operand still denotes the same tick list, checked, and the oracle is unchanged): "
+                 "axis 2 (form of the time arguments): start/end as ndarray, list, tuple, list of numpy scalars, pandas Series (default and foreign index), pandas Index, "
+                 "(n,1)/(1,n) arrays, strided views of one buffer, read-only arrays, array/list/tuple of (start,end) pairs, one (start,end) pair, Python / numpy scalars, 0-d arrays, "
+                 "DataFrame (both column orders), an IntervalSet, another object's TsIndex / .t / .index.values / .times(unit); dtypes float64, float32, float16, int8..int64, uint8..uint64, bool "
+                 "(whenever the instants are whole numbers of the unit and fit). "
+                 "axis 3: start/end/time_units positionally and by keyword, time_units at its default, end=None spelled out, the operand of union/intersect/set_diff positionally, as keyword a=, through the class; "
+                 "the three operations in a seeded order. axis 4: the same instants in s / ms / us. "
+                 "axis 5: lattices of 4us/1us, 4ms/1ms, 4s/1s; offsets 0, -16us, -160us, +-1e5 s, +3 s, straddling 0. "
+                 "axis 6: empty / one / many intervals in every form that can express them; empty sets in 8 forms in the absorbing laws. "
+                 "axis 7: operands with metadata (dict, DataFrame, DataFrame columns, set_info kwargs / DataFrame, item assignment; int / str / float columns; names shared or not between the operands). "
+                 "axis 8: operands that are the product of a history (copy constructor, selection out of a bigger set by slice / integer array / list / mask / loc / number / [sl, :], save+load npz, pickle, copy, deepcopy, "
+                 "as_dataframe, as_units, .values, a previous union / intersect / set_diff, a Tsd's time support, restrict); the same live object as both operands; CHAINS (A op1 B) op2 C and C op2 (A op1 B) "
+                 "with the statement applied to each step. TsGroup supports: keys 0..n-1 / arbitrary unsorted ints / numeric strings / floats / numpy ints, dict or list, Ts and Tsd members. "
+                 "For widened cases distinct = distinct (A, B, forms).")
+    fcases, lines = [], []
+    for _ in range(1400 if quick else 24000):
+        A, B = rngf.choice(pairs)
+        r = rngf.random()
+        A, B = (A, []) if r < 0.05 else ([], B) if r < 0.10 else (A, A) if r < 0.16 else (A, B)     # more empty / identical operands
+        if r > 0.995:                          # many intervals (up to 100 per operand)
+            A = G.rand_canonical_iset(rngf, 100)
+            B = G.rand_canonical_iset(rngf, 100, coincide=[x for iv in A for x in iv][::7])
+        scale, off, oname = place(rngf, [A, B])
+        A, B = transform(A, scale, off), transform(B, scale, off)
+        if rngf.random() < 0.08:              # unbounded intervals: the first start at -inf and / or the last end at +inf
+            A, B = unbound(rngf, A), unbound(rngf, B)
+        shared = rngf.random() < 0.5
+        fA, fB = make_form(rngf, A, "A", shared), make_form(rngf, B, "B", shared)
+        same = A == B and rngf.random() < 0.5
+        call = rngf.choice(["pos", "kw", "unbound"])
+        order = rngf.choice([(0, 1, 2), (2, 1, 0), (1, 0, 2), (1, 2, 0), (0, 2, 1), (2, 0, 1)])
+        fcases.append((A, B, fA, fB, same, call, order, scale, oname))
+        a, b = C.fmt_iset(A), C.fmt_iset(B)
+        lines += [f"iset_inter\t{a}\t{b}", f"iset_diff\t{a}\t{b}", f"iset_union\t{a}\t{b}"]
+    out = C.run_model(lines)
+    for n, (A, B, fA, fB, same, call, order, scale, oname) in enumerate(fcases):
+        forms = {"A": fA, "B": fA if same else fB, "same_object": same, "call": call, "order": list(order)}
+        inp = {"A": A, "B": B, "forms": forms}
+        res.case((tuple(A), tuple(B), json.dumps(forms, sort_keys=True)), nontrivial=bool(A) and bool(B))
+        res.count("form:cases")
+        res.count("form:lattice_scale=%s" % {1: "us", 1000: "ms", 10 ** 6: "s"}[scale])
+        res.count("form:offset=%s" % oname)
+        res.count("form:call=%s" % call)
+        res.count("form:same_live_object", int(same))
+        res.count("form:unbounded_operand", int(is_unbounded(A, B)))
+        res.count("form:many_intervals(>=30)", int(max(len(A), len(B)) >= 30))
+        res.count("form:both_with_metadata", int(fA["meta"] not in NOMETA and forms["B"]["meta"] not in NOMETA))
+        res.count("form:sizes=%d,%d" % (min(len(A), 4), min(len(B), 4)))
+        count_form(res, fA)
+        if not same:
+            count_form(res, fB)
+        a = build_checked(res, nap, A, fA, inp, tmpdir)
+        b = a if same else build_checked(res, nap, B, fB, inp, tmpdir)
+        if a is None or b is None:
+            continue
+        try:
+            public_checks(res, nap, A, B, a, b, out[3 * n: 3 * n + 3], inp, call, order, durations=not is_unbounded(A, B))
+        except OpFailure as ex:
+            res.violations.append({"key": {"op": ex.name, "part": "exception", "exc": ex.exc, "call": call,
+                                           "self_has_metadata": fA["meta"] not in NOMETA, "arg_has_metadata": forms["B"]["meta"] not in NOMETA},
+                                   "what": str(ex), "input": inp})
+        if n < 3:
+            res.sample({"A": A, "B": B, "forms": forms})
+    # CHAINS: (A op1 B) op2 C and C op2 (A op1 B): the statement applied to each step (the operands of the second step are the
+    # library's own result R1 and C); 4us / 4ms / 4s lattice only, so that no interval is float-ambiguous
+    chains = []
+    for _ in range(280 if quick else 5000):
+        A, B, Cc = rngf.choice(S), rngf.choice(S), rngf.choice(S)
+        scale, off, oname = place(rngf, [A, B, Cc])
+        A, B, Cc = transform(A, scale, off), transform(B, scale, off), transform(Cc, scale, off)
+        shared = rngf.random() < 0.5
+        forms = {"A": make_form(rngf, A, "A", shared), "B": make_form(rngf, B, "B", shared), "C": make_form(rngf, Cc, "C", shared),
+                 "call": rngf.choice(["pos", "kw", "unbound"]), "op1": rngf.choice(OPS), "op2": rngf.choice(OPS)}
+        chains.append((A, B, Cc, forms))
+    step2, lines = [], []
+    for A, B, Cc, forms in chains:
+        inp = {"A": A, "B": B, "C": Cc, "forms": forms}
+        res.case((tuple(A), tuple(B), tuple(Cc), json.dumps(forms, sort_keys=True)), nontrivial=bool(A) and bool(B) and bool(Cc))
+        res.count("chain:cases")
+        res.count("chain:%s_then_%s" % (forms["op1"], forms["op2"]))
+        objs = [build_checked(res, nap, X, forms[k], inp, tmpdir) for k, X in (("A", A), ("B", B), ("C", Cc))]
+        if any(x is None for x in objs):
+            continue
+        a, b, c = objs
+        try:
+            r1 = call_op(nap, forms["op1"], a, b, forms["call"])
+        except OpFailure as ex:
+            res.violations.append({"key": {"op": ex.name, "part": "exception", "exc": ex.exc, "call": forms["call"], "self_has_metadata": forms["A"]["meta"] not in NOMETA,
+                                           "arg_has_metadata": forms["B"]["meta"] not in NOMETA}, "what": str(ex), "input": inp})
+            continue
+        R1 = tk(r1.start, r1.end, junctions(A, B))
+        res.evaluations += 1
+        if not oracle_pub(forms["op1"], A, B, R1, res, inp):
+            continue
+        if not G.canonical(R1):
+            res.count("chain:first_result_not_canonical")        # outside the quantifier (C01): nothing to check
+            continue
+        res.count("chain:first_result_has_metadata", int(len(r1.metadata_columns) > 0))
+        step2.append((R1, Cc, r1, c, forms, inp))
+        x, y = C.fmt_iset(R1), C.fmt_iset(Cc)
+        k = {"intersect": "iset_inter", "set_diff": "iset_diff", "union": "iset_union"}[forms["op2"]]
+        lines += [f"{k}\t{x}\t{y}", f"{k}\t{y}\t{x}"]
+    out = C.run_model(lines) if lines else []
+    for n, (R1, Cc, r1, c, forms, inp) in enumerate(step2):
+        junc = junctions(R1, Cc)
+        for X, Y, x, y, m, side in ((R1, Cc, r1, c, out[2 * n], "result_is_self"), (Cc, R1, c, r1, out[2 * n + 1], "result_is_argument")):
+            inp2 = {"A": X, "B": Y, "chain": {"A": inp["A"], "B": inp["B"], "C": inp["C"], "forms": forms, "second_step": side}}
+            try:
+                r2 = call_op(nap, forms["op2"], x, y, forms["call"])
+            except OpFailure as ex:
+                res.violations.append({"key": {"op": ex.name, "part": "exception", "exc": ex.exc, "call": forms["call"], "chain": True,
+                                               "self_has_metadata": len(x.metadata_columns) > 0, "arg_has_metadata": len(y.metadata_columns) > 0},
+                                       "what": str(ex), "input": inp2})
+                continue
+            R2 = tk(r2.start, r2.end, junc)
+            res.evaluations += 1
+            oracle_pub(forms["op2"], X, Y, R2, res, inp2)
+            if R2 != parse_iset(m):
+                res.disagreements.append({"op": forms["op2"], "input": inp2, "impl": R2, "model": m})
     res.float_ambiguous = AMB[0]
     # idempotence / absorbing, n-ary union via TsGroup supports
     sub = S + S1 if tier == "thorough" else rng.sample(S, 45) + rng.sample(S1, 15)
@@ -215,12 +777,26 @@ def run(res, tier, seed):
         a = nap.IntervalSet(G.arr([s for s, _ in A]), G.arr([e for _, e in A]))
         res.evaluations += 1
         e0 = nap.IntervalSet([], [])
-        for part, R, want in (("A union A", a.union(a), A), ("A intersect A", a.intersect(a), A), ("A set_diff A", a.set_diff(a), []),
-                              ("A union empty", a.union(e0), A), ("empty union A", e0.union(a), A), ("A intersect empty", a.intersect(e0), []),
-                              ("empty intersect A", e0.intersect(a), []), ("A set_diff empty", a.set_diff(e0), A), ("empty set_diff A", e0.set_diff(a), [])):
-            if tk(R.start, R.end) != want:
-                res.violations.append({"key": {"op": "idempotence", "part": part}, "what": "%s is not %s" % (part, "A" if want else "empty"),
-                                       "input": {"A": A}, "impl": tk(R.start, R.end)})
+        absorbing(res, nap, A, a, e0, "pos", {"A": A})
+        # the same laws with A in a seeded argument form / placement and the empty set in each of its forms
+        for _ in range(2):
+            scale, off, oname = place(rngf, [A])
+            A2 = transform(A, scale, off)
+            fA = make_form(rngf, A2, "A", plain=0.0)
+            ek = rngf.choice(sorted(EMPTY_FORMS))
+            call = rngf.choice(["pos", "kw", "unbound"])
+            inp = {"A": A2, "forms": {"A": fA, "empty": ek, "call": call}}
+            res.count("absorbing:empty_form=%s" % ek)
+            res.count("absorbing:A_form_cases")
+            res.evaluations += 1
+            a2 = build_checked(res, nap, A2, fA, inp, tmpdir)
+            if a2 is None:
+                continue
+            try:
+                absorbing(res, nap, A2, a2, EMPTY_FORMS[ek](nap), call, inp)
+            except OpFailure as ex:
+                res.violations.append({"key": {"op": ex.name, "part": "exception", "exc": ex.exc, "call": call, "with_empty_set": True,
+                                               "self_has_metadata": fA["meta"] not in NOMETA}, "what": str(ex), "input": inp})
         for _ in range(2):
             Bs = [rng.choice(S) if rng.random() > 0.2 else [] for _ in range(rng.randint(1, 3))]
             allsets = [A] + Bs
@@ -243,12 +819,39 @@ def run(res, tier, seed):
                 break
         # TsGroup time support = union of member supports
         members = {}
-        for k, X in enumerate(allsets):
-            sup = nap.IntervalSet(G.arr([s for s, _ in X]), G.arr([e for _, e in X]))
-            members[k] = nap.Ts(G.arr([X[0][0]] if X else []), time_support=sup)     # X = []: a member with an empty support
+        # keys: 0..n-1 / arbitrary unsorted ints / numeric strings / floats / numpy ints; members Ts or Tsd; supports in a seeded form;
+        # the group built from a dict or (keys 0..n-1) from a list
+        kstyle = rngf.choice(["range", "range", "ints", "strings", "floats", "npints"])
+        raw = list(range(len(allsets))) if kstyle == "range" else rngf.sample(range(2, 40), len(allsets))
+        keys = {"range": raw, "ints": raw, "strings": [str(k) for k in raw], "floats": [float(k) for k in raw], "npints": [np.int64(k) for k in raw]}[kstyle]
+        aslist = kstyle == "range" and rngf.random() < 0.4
+        res.count("group:keys=%s" % kstyle)
+        res.count("group:from_list", int(aslist))
+        bypass = rngf.random() < 0.3
+        res.count("group:bypass_check", int(bypass))
+        for k, X in zip(keys, allsets):
+            if rngf.random() < 0.5:
+                sup = nap.IntervalSet(G.arr([s for s, _ in X]), G.arr([e for _, e in X]))
+            else:
+                fX = make_form(rngf, X, "A", plain=0.0)
+                sup = build_checked(res, nap, X, fX, {"sets": allsets, "form": fX}, tmpdir)
+                res.count("group:support_in_a_form")
+                if sup is None:
+                    continue
+            t = G.arr([X[0][0]] if X else [])
+            if rngf.random() < 0.5:
+                members[k] = nap.Ts(t, time_support=sup)     # X = []: a member with an empty support
+            else:
+                members[k] = nap.Tsd(t, d=np.zeros(len(t)), time_support=sup)
+                res.count("group:member_is_Tsd")
             res.count("group_member_with_empty_support", int(not X))
-        if members:
-            g = nap.TsGroup(members)
+        if len(members) == len(allsets):
+            try:
+                g = nap.TsGroup(list(members.values()) if aslist else members, **({"bypass_check": True} if bypass else {}))
+            except Exception as ex:
+                res.violations.append({"key": {"op": "TsGroup.time_support", "part": "exception", "exc": type(ex).__name__, "keys": kstyle, "from_list": aslist},
+                                       "what": "building a group of members with non-empty supports raises: %s" % str(ex)[:200], "input": {"sets": allsets, "keys": [str(k) for k in keys]}})
+                continue
             Rg = tk(g.time_support.start, g.time_support.end)
             fl = [iv for k, X in enumerate(allsets) if X for iv in X]
             for x in probes(fl, []):
@@ -256,6 +859,7 @@ def run(res, tier, seed):
                     res.violations.append({"key": {"op": "TsGroup.time_support"}, "what": "group support is not the union of member supports",
                                            "input": {"sets": allsets}, "x": x, "impl": Rg})
                     break
+    shutil.rmtree(tmpdir, ignore_errors=True)
 
 
 def search(res, seed):
@@ -269,14 +873,76 @@ def replay(payload):
     warnings.simplefilter("ignore")
     v = payload.get("violation") or (payload.get("disagreements") or [{}])[0]
     inp = v.get("input", {})
-    A = [tuple(x) for x in inp.get("A", [])]
-    B = [tuple(x) for x in inp.get("B", [])]
-    a = nap.IntervalSet(G.arr([s for s, _ in A]), G.arr([e for _, e in A]))
-    b = nap.IntervalSet(G.arr([s for s, _ in B]), G.arr([e for _, e in B]))
     r = C.Result()
-    for name, R in (("union", a.union(b)), ("intersect", a.intersect(b)), ("set_diff", a.set_diff(b))):
-        Rt = tk(R.start, R.end, junctions(A, B))
-        print(name, "A=%s B=%s ->" % (A, B), Rt)
-        oracle_pub(name, A, B, Rt, r, inp)
+    T = lambda X: [tuple(x) for x in X]
+    tmpdir = tempfile.mkdtemp(prefix="wd_c02_")
+    try:
+        if "chain" in inp:
+            ch = inp["chain"]
+            f = ch["forms"]
+            A, B, Cc = T(ch["A"]), T(ch["B"]), T(ch["C"])
+            a, b, c = build_iset(nap, A, f["A"], tmpdir), build_iset(nap, B, f["B"], tmpdir), build_iset(nap, Cc, f["C"], tmpdir)
+            r1 = call_op(nap, f["op1"], a, b, f["call"])
+            R1 = tk(r1.start, r1.end, junctions(A, B))
+            print("chain: A=%s %s B=%s -> %s ; forms=%s" % (A, f["op1"], B, R1, json.dumps(f)))
+            X, Y, x, y = (R1, Cc, r1, c) if ch["second_step"] == "result_is_self" else (Cc, R1, c, r1)
+            r2 = call_op(nap, f["op2"], x, y, f["call"])
+            R2 = tk(r2.start, r2.end, junctions(X, Y))
+            print("second step:", f["op2"], "self=%s arg=%s ->" % (X, Y), R2)
+            oracle_pub(f["op2"], X, Y, R2, r, inp)
+        elif "forms" in inp and "B" in inp and "C" not in inp:
+            f = inp["forms"]
+            A, B = T(inp["A"]), T(inp["B"])
+            print("forms:", json.dumps(f))
+            a = build_checked(r, nap, A, f["A"], inp, tmpdir)
+            b = a if f.get("same_object") else build_checked(r, nap, B, f["B"], inp, tmpdir)
+            if a is not None and b is not None:
+                Ru, Ri, Rd, _ = public_checks(r, nap, A, B, a, b, None, inp, f["call"], tuple(f["order"]), durations=not is_unbounded(A, B))
+                print("A=%s B=%s -> union %s intersect %s set_diff %s" % (A, B, Ru, Ri, Rd))
+        elif "forms" in inp and "C" in inp:
+            f = inp["forms"]
+            A, B = T(inp["A"]), T(inp["B"])
+            a, b = build_checked(r, nap, A, f["A"], inp, tmpdir), build_checked(r, nap, B, f["B"], inp, tmpdir)
+            if a is not None and b is not None:
+                r1 = call_op(nap, f["op1"], a, b, f["call"])
+                R1 = tk(r1.start, r1.end, junctions(A, B))
+                print("first step of a chain:", f["op1"], "A=%s B=%s ->" % (A, B), R1)
+                oracle_pub(f["op1"], A, B, R1, r, inp)
+        elif "forms" in inp:
+            f = inp["forms"]
+            A = T(inp["A"])
+            print("forms:", json.dumps(f))
+            a = build_checked(r, nap, A, f["A"], inp, tmpdir)
+            if a is not None:
+                absorbing(r, nap, A, a, EMPTY_FORMS[f["empty"]](nap), f["call"], inp)
+        else:
+            A, B = T(inp.get("A", [])), T(inp.get("B", []))
+            a = nap.IntervalSet(G.arr([s for s, _ in A]), G.arr([e for _, e in A]))
+            b = nap.IntervalSet(G.arr([s for s, _ in B]), G.arr([e for _, e in B]))
+            for name, R in (("union", a.union(b)), ("intersect", a.intersect(b)), ("set_diff", a.set_diff(b))):
+                Rt = tk(R.start, R.end, junctions(A, B))
+                print(name, "A=%s B=%s ->" % (A, B), Rt)
+                oracle_pub(name, A, B, Rt, r, inp)
+    except OpFailure as ex:
+        r.violations.append({"key": {"op": ex.name, "part": "exception", "exc": ex.exc}, "what": str(ex)})
+    finally:
+        shutil.rmtree(tmpdir, ignore_errors=True)
     print("violations:", r.violations)
     return 1 if r.violations else 0
+
+# --- Glue layer (DESIGN.md 10.11): the Python between the API and the kernels, tied by proof in Properties/C02c.v; this is the
+# executable tie of its trusted parts (translator tools/py2glue.py + primitive semantics Glue/Interp.v): the TRANSLATED term run by the
+# extracted evaluator (ocaml/gluedriver) against the REAL routine of pynapple on the same inputs (harness/gluecmp.py).
+import gluecmp  # noqa: E402
+
+DRIVERS = list(globals().get("DRIVERS", ["driver"])) + ["gluedriver"]
+GLUE_ROUTINES = ['IntervalSet.union', 'IntervalSet.intersect', 'IntervalSet.set_diff', 'IntervalSet.time_span', 'IntervalSet.tot_length', 'IntervalSet.__getitem__', 'IntervalSet.drop_short_intervals', 'IntervalSet.drop_long_intervals', 'IntervalSet.merge_close_intervals']
+_run_without_glue = run
+
+
+def run(res, tier, seed):
+    _run_without_glue(res, tier, seed)
+    gluecmp.check(res, GLUE_ROUTINES, tier, seed)
+    res.rule += (" | glue: for each of %s the translated Glue.Lang term (coq/Gen/Glue.v) is evaluated by the extracted Glue/Interp.v and compared with the "
+                 "real pynapple routine on canonical sets of a dyadic lattice (incl. negative times, empty, touching, duplicates, unsorted/improper "
+                 "constructor input, thresholds equal to a length or gap); exceptions must match the model's error kind" % ", ".join(GLUE_ROUTINES))
